@@ -184,6 +184,101 @@ func (s Step) bytes(e *Env) []byte {
 	return s.Keys.dec()
 }
 
+// genPhrase draws a short sequence of steps that enters a deep mode and acts
+// there (steering only: no oracle depends on the mode being reached).
+func genPhrase(t *rapid.T, e *Env) []Step {
+	k := func(s string, note string) Step { return Step{Keys: encs(s), Note: note} }
+	motion := func() Step {
+		return k(rapid.SampledFrom([]string{"w", "b", "e", "W", "B", "E", "0", "$", "^", "h", "l", "fa", "Fo", "t ", "T ", "%", "ge", "gE", "iw", "aw", "iW", "aW", "i\"", "a\"", "i(", "a(", "i'", "ia", "aa", "j", "k", "3w", "2b", "s\""}).Draw(t, "motion"), "motion")
+	}
+
+	switch rapid.IntRange(0, 8).Draw(t, "phrase") {
+	case 0: // incremental search
+		out := []Step{k(rapid.SampledFrom([]string{"\x12", "\x13"}).Draw(t, "isdir"), "isearch")}
+		for i := rapid.IntRange(0, 4).Draw(t, "isn"); i > 0; i-- {
+			out = append(out, k(rapid.SampledFrom([]string{"e", "l", "o", "x", "\x12", "\x13", "\x7f", "\x17", "\x15", "\x19", "日", " "}).Draw(t, "iskey"), "isearch-key"))
+		}
+
+		return append(out, k(rapid.SampledFrom([]string{"\r", "\x1b", "\x07", "\x03", "\x01", "\x1b[A", "z"}).Draw(t, "isend"), "isearch-end"))
+	case 1: // completion menu
+		out := []Step{k("\t", "complete")}
+		for i := rapid.IntRange(0, 6).Draw(t, "mn"); i > 0; i-- {
+			out = append(out, k(rapid.SampledFrom([]string{"\t", "\x1b[Z", "\x1b[A", "\x1b[B", "\x1b[C", "\x1b[D", "\x0e", "\x10", "\x1b[1;5A", "\x1b[1;5B", "\x00", "\x06", "a", "\x7f"}).Draw(t, "mkey"), "menu-key"))
+		}
+
+		return append(out, k(rapid.SampledFrom([]string{"\r", "\x1b", "\x03", " ", "x", "\x07"}).Draw(t, "mend"), "menu-end"))
+	case 2: // vi operator + motion
+		out := []Step{k("\x1b", "esc")}
+		if rapid.Bool().Draw(t, "cnt") {
+			out = append(out, k(rapid.SampledFrom([]string{"2", "3", "10"}).Draw(t, "count"), "count"))
+		}
+
+		out = append(out, k(rapid.SampledFrom([]string{"d", "c", "y", "gu", "gU", "g~"}).Draw(t, "op"), "operator"), motion())
+
+		return out
+	case 3: // vi visual
+		out := []Step{k("\x1b", "esc"), k(rapid.SampledFrom([]string{"v", "V"}).Draw(t, "vis"), "visual")}
+		for i := rapid.IntRange(0, 3).Draw(t, "vn"); i > 0; i-- {
+			out = append(out, motion())
+		}
+
+		return append(out, k(rapid.SampledFrom([]string{"d", "y", "c", "x", "~", "u", "U", "S\"", "s", "\x1b", "v", "o", "r!", "J", "p"}).Draw(t, "vend"), "visual-end"))
+	case 4: // emacs keyboard macro
+		out := []Step{k("\x18(", "start-kbd-macro")}
+		for i := rapid.IntRange(0, 4).Draw(t, "kn"); i > 0; i-- {
+			out = append(out, genKeyToken(t, e))
+		}
+
+		return append(out, k("\x18)", "end-kbd-macro"), k("\x18e", "call-last-kbd-macro"))
+	case 5: // vi macro
+		out := []Step{k("\x1b", "esc"), k("qa", "macro-record")}
+		for i := rapid.IntRange(0, 4).Draw(t, "kn"); i > 0; i-- {
+			out = append(out, genKeyToken(t, e))
+		}
+
+		return append(out, k("\x1b", "esc"), k("q", "macro-stop"), k("@a", "macro-run"))
+	case 6: // history walking and searches
+		out := []Step{}
+		for i := rapid.IntRange(1, 6).Draw(t, "hn"); i > 0; i-- {
+			out = append(out, k(rapid.SampledFrom([]string{"\x10", "\x0e", "\x1b<", "\x1b>", "\x1bp", "\x1bn", "\x1b[A", "\x1b[B", "\x1b[5~", "\x1b[6~", "\x0f", "\x1b.", "\x1b_"}).Draw(t, "hkey"), "history"))
+		}
+
+		return out
+	case 7: // non-incremental search / vi search
+		out := []Step{k(rapid.SampledFrom([]string{"\x1bp", "\x1bn"}).Draw(t, "nis"), "history-search")}
+		if rapid.Bool().Draw(t, "visearch") {
+			out = []Step{k("\x1b", "esc"), k(rapid.SampledFrom([]string{"/", "?"}).Draw(t, "vs"), "vi-search"), k("e", "text"), k("c", "text")}
+		}
+
+		return append(out, k(rapid.SampledFrom([]string{"\r", "\x1b", "\x07", "\x03", "n", "N"}).Draw(t, "nisend"), "search-end"))
+	default: // kill / yank / undo dance
+		out := []Step{}
+		for i := rapid.IntRange(2, 6).Draw(t, "kyn"); i > 0; i-- {
+			out = append(out, k(rapid.SampledFrom([]string{"\x0b", "\x15", "\x17", "\x1bd", "\x1b\x7f", "\x19", "\x1by", "\x1f", "\x18\x15", "\x01", "\x05", "\x1bb", "\x1bf", "\x14", "\x1bt", "\x1bu", "\x1bl", "\x1bc", "\x00", "\x18\x18", "\x1bw"}).Draw(t, "kykey"), "edit"))
+		}
+
+		return out
+	}
+}
+
+// genScript draws a script: tokens and phrases.
+func genScript(t *rapid.T, e *Env, min, max int) []Step {
+	groups := rapid.SliceOfN(rapid.Custom(func(t *rapid.T) []Step {
+		if rapid.IntRange(0, 3).Draw(t, "isphrase") == 0 {
+			return genPhrase(t, e)
+		}
+
+		return []Step{genKeyToken(t, e)}
+	}), min, max).Draw(t, "script")
+
+	out := []Step{}
+	for _, g := range groups {
+		out = append(out, g...)
+	}
+
+	return out
+}
+
 // joinSteps concatenates consecutive key steps (for "paste" style delivery).
 func joinSteps(steps []Step) []byte {
 	var out []byte
